@@ -15,7 +15,7 @@ import re
 from rsa.cfg import cfg_of
 from rsa.effects import EffectAnalysis
 from rsa.model import AnchorError, Undecided, call_name, unparse, walk_no_nested
-from rsa.terms import canon, property_body, single_defs
+from rsa.terms import canon, inline_locals, property_body, single_defs
 from rsa.util import find_calls, parents_map, require, top_level_stmt
 
 RUN_MODULE_PREFIXES = ("resonaate.agents.", "resonaate.sensors.", "resonaate.tasking.", "resonaate.scenario.scenario", "resonaate.scenario.clock", "resonaate.parallel.", "resonaate.estimation.", "resonaate.dynamics.")
@@ -453,11 +453,33 @@ def rule_r6_r7(chk, p, t):
     step = p.func("Scenario.stepForward")
     sdo = p.func("Scenario.saveDatabaseOutput")
 
+    scn = step.cls
+
+    def expand(stmts):
+        """Top-level statements with argument-less `self.<helper>()` statements replaced by the helper's body."""
+        out = []
+        for s in stmts:
+            if isinstance(s, ast.Expr) and isinstance(s.value, ast.Call) and isinstance(s.value.func, ast.Attribute) and isinstance(s.value.func.value, ast.Name) and s.value.func.value.id == "self" and not s.value.args and not s.value.keywords and scn is not None:
+                h = p.lookup_method(scn, s.value.func.attr)
+                if h is not None and h.module.name.startswith("resonaate.scenario"):
+                    defs = single_defs(h.node)
+                    for b in h.node.body:
+                        if isinstance(b, ast.Expr) and isinstance(b.value, ast.Constant):
+                            continue
+                        if isinstance(b, ast.Assign) and isinstance(b.targets[0], ast.Name) and b.targets[0].id in defs:
+                            continue
+                        out.append(ast.copy_location(inline_locals(h, b), s) if isinstance(b, (ast.Assign, ast.Expr)) else b)
+                    continue
+            out.append(s)
+        return out
+
     def cover():
         tics = find_calls(step.node, "ticToc")
         require(len(tics) == 1, "one ticToc expected", step.node)
         tic_top = top_level_stmt(step.node, tics[0])
         ti = step.node.body.index(tic_top)
+        step_after = expand(step.node.body[ti + 1 :])
+        sdo_body = expand(sdo.node.body)
         # form (a): unconditional insert-if-absent of an Epoch after the tick
         form_a = False
         for s in step.node.body[ti + 1 :]:
@@ -465,11 +487,11 @@ def rule_r6_r7(chk, p, t):
                 form_a = True
         # form (b): pending collection
         pend = None
-        for s in step.node.body[ti + 1 :]:
+        for s in step_after:
             if isinstance(s, ast.Assign) and isinstance(s.targets[0], ast.Subscript) and isinstance(s.targets[0].value, ast.Attribute) and isinstance(s.targets[0].value.value, ast.Name) and s.targets[0].value.value.id == "self":
                 key = unparse(s.targets[0].slice)
                 val = unparse(s.value)
-                if "datetime_epoch.isoformat" in key and ("julian_date" in val):
+                if "datetime_epoch.isoformat" in key:
                     pend = (s.targets[0].value.attr, s, key, val)
             if isinstance(s, ast.Expr) and isinstance(s.value, ast.Call) and call_name(s.value) in ("append", "add") and "epoch" in unparse(s.value).lower():
                 f = s.value.func.value
@@ -497,6 +519,17 @@ def rule_r6_r7(chk, p, t):
             return None
         fld, stmt, key, val = pend
         r6.ok(cons, f"form (b): self.{fld}[{key[:50]}] = {val}", step.loc(stmt))
+        # the recorded Julian date is the clock's own value for that epoch - the float every buffered row carries as
+        # its foreign key - not a value recomputed by another route (equal only up to one unit in the last place)
+        own_jd = {"self.clock.julian_date_epoch"}
+        for n in walk_no_nested(step.node):
+            if isinstance(n, ast.Assign) and unparse(n.value) == "self.clock.julian_date_epoch" and n.lineno > tic_top.lineno:
+                own_jd.add(unparse(n.targets[0]))
+        c3 = step.qualname + ":epoch-julian-date"
+        if val in own_jd and key.startswith("self.clock.datetime_epoch.isoformat("):
+            r6.ok(c3, f"pending epoch = (clock timestamp, {val})", step.loc(stmt))
+        else:
+            r6.violation(c3, f"pending-julian-date:{val[:60]}", f"the pending Epoch of a step is recorded as `{key[:60]}` -> `{val[:60]}`: its Julian date must be the clock's own `self.clock.julian_date_epoch` (the value the step's rows carry as foreign key); a date recomputed from the timestamp differs by one unit in the last place for most start times, so rows of steps beyond the pre-inserted span reference no Epoch", step.loc(stmt))
         # saveDatabaseOutput ensures every pending epoch before bulkSave and clears afterwards
         loops = [n for n in walk_no_nested(sdo.node) if isinstance(n, ast.For) and f"self.{fld}" in unparse(n.iter)]
         bs = find_calls(sdo.node, "bulkSave")
@@ -527,8 +560,10 @@ def rule_r6_r7(chk, p, t):
         else:
             r6.ok(c2, "every pending epoch is inserted if absent before bulkSave, then the collection is cleared", sdo.loc(lp))
         # the current epoch is part of the pending set at save time (initial save happens before any step)
-        cur = [n for n in sdo.node.body if isinstance(n, ast.Assign) and isinstance(n.targets[0], ast.Subscript) and f"self.{fld}" in unparse(n.targets[0]) and n.lineno < lp.lineno]
-        if cur:
+        cur = [n for n in sdo_body if isinstance(n, ast.Assign) and isinstance(n.targets[0], ast.Subscript) and f"self.{fld}" in unparse(n.targets[0]) and n.lineno < lp.lineno]
+        if cur and unparse(cur[0].value) not in ("self.clock.julian_date_epoch", "self.current_julian_date"):
+            r6.violation(sdo.qualname + ":current-epoch", f"current-epoch-julian-date:{unparse(cur[0].value)[:60]}", f"saveDatabaseOutput records the current epoch with `{unparse(cur[0].value)[:60]}` instead of the clock's own Julian date: the Epoch row and the rows that reference it carry different floats", sdo.loc(cur[0]))
+        elif cur:
             r6.ok(sdo.qualname + ":current-epoch", "the current epoch is added to the pending set before ensuring", sdo.loc(cur[0]))
         else:
             r6.violation(sdo.qualname + ":current-epoch", "current-epoch-not-ensured", "saveDatabaseOutput does not ensure the current epoch (the initial save runs before any step)", sdo.loc())
